@@ -8,7 +8,7 @@ KEYMAP = {
     'chunk-exceeds-max-length': ['C01'], 'write-returned-bad-count': ['C05', 'C01'],
     'workload-incomplete': ['C02'], 'handshake-never-completed': ['C02'], 'connection-lost-under-fair-loss': ['C02'],
     'wedge': ['C02'],
-    'frames-processed-exceed-frames-sent': ['C04'], 'forged-': ['C04'],
+    'frames-processed-exceed-frames-sent': ['C04'], 'forged-': ['C04'], 'hostile-': ['C03'],
     'amplification-limit-exceeded': ['C07'], 'stateless-reset-': ['C07'], 'short-initial-': ['C07'],
     'connection-lost-reported-twice': ['C08'], 'drained-notified-twice': ['C08'], 'output-after-drained': ['C08', 'C20'],
     'close-': ['C08'], 'idle-': ['C08'], 'drain-': ['C08'], 'lost-': ['C08'],
@@ -78,5 +78,8 @@ def run(pid, scen, seed, tier, stats, failing, broken, sh, CACHE, TARGET, infra,
         else:
             st.setdefault('other_property_failures', []).append(f[:200])
     div, n = diff_with_model(prefix, f'sim:{name}')
+    if div and str(div.get('case', '')).startswith('sim-'):
+        # the divergent transition was observed on the real endpoints in this execution
+        div['replay_cmd'] = f'VERIF_SIM_RAWSEED=1 VERIF_SIM_VERBOSE=2 {os.path.join(TARGET, "debug", "sim")} {name} {div["case"][4:]} 1 /verif/.cache/run/replay   # then: /verif/.cache/driver-{pid} < /verif/.cache/run/replay.ops | diff - /verif/.cache/run/replay.impl'
     st['model_transitions_validated'] = n
     return div
